@@ -13,3 +13,5 @@ TECHNIQUE = "contract-based deductive verification (VCs from the ast of the real
 UNITS = [FT.unit_choice_init(), FT.unit_constant_init(), FT.unit_integer_init(), FT.unit_datetime_init(), FT.unit_decimal_init(), FT.unit_text_init(), FT.unit_length_range_sweep(), FT.unit_types_sweep(), FT.unit_integer_validated_value(), FT.unit_decimal_validated_value(), FT.unit_choice_constant_text(), FT.unit_datetime_regex_pattern(), ST.unit_field_class_structure(), F.unit_validated(), R.unit_range_validate(), R.unit_decimal_range_validate()]
 from contracts import tools as TL
 UNITS += [TL.unit_tokenize_without_space(), TL.unit_generated_tokens(), TL.unit_token_text()]
+from props import _groups as _G
+UNITS = _G.with_groups(PROPERTY, UNITS, _G.FIELD_VALUES, _G.FIELD_DECLS, _G.VALIDATION)
